@@ -1,19 +1,5 @@
 #!/bin/bash
-# usage: eval_patch.sh <patch.diff> [props...]   -- applies the patch to /repo, runs the quick checks, reverts.
-set -u
-P="$1"; shift
-PROPS="${@:-C01 C02 C03 C04 C07 C08 C09 C10 C11 C12 C13 C15 C16 C17 C18 C19}"
-cd /repo || exit 2
-if ! git diff --quiet; then echo "repo dirty"; exit 2; fi
-git apply "$P" || { echo "patch does not apply"; exit 2; }
-export NUCSVERIF_OUT=$(mktemp -d)
-cd /verif
-FIRED=""
-for c in $PROPS; do
-  [ -f /verif/nucsverif/props/$(echo $c | tr A-Z a-z).py ] || continue
-  out=$(/venv/bin/python -m nucsverif check $c 2>&1); rc=$?
-  if [ $rc -ne 0 ]; then FIRED="$FIRED $c($rc)"; echo "--- $c rc=$rc"; echo "$out" | grep -v '^VIOLATION' | cut -c1-260 | head -4; fi
-done
-rm -rf "$NUCSVERIF_OUT"
-git -C /repo checkout -- .
-echo "FIRED:${FIRED:- none}"
+# usage: eval_patch.sh <patch.diff> [props...]   -- runs the quick checks on a scratch copy of /repo with the patch applied.
+# (Until round 6 this script applied the patch to /repo itself and reverted it afterwards; a background sweep that copied /repo in between
+#  got polluted verdicts.  It now delegates to try_patch.py, which never touches /repo.)
+exec /venv/bin/python "$(dirname "$0")/try_patch.py" "$@"
